@@ -60,6 +60,10 @@ func c10Disp(o *Out, kind, inst string, key []byte, skew, now int64, ip, packet 
 	in := map[string]interface{}{"t": "disp", "inst": inst, "key": hx(key), "skew": fmt.Sprint(skew), "now": fmt.Sprint(now),
 		"ip": hx(ip), "packet": hx(packet), "body_ok": bodyOK}
 	fr := c10Frontend(inst, key, skew)
+	if len(key) == 0 {
+		// no key configured: the tracker must use the key its validated configuration reports
+		key = []byte(fr.f.PrivateKey)
+	}
 	timecache.VerifPin(now)
 	fr.spy.mu.Lock()
 	fr.spy.handles = 0
@@ -372,6 +376,53 @@ func c10Stream(o *Out, rng *rand.Rand, n int) {
 			}
 			p, _ := body(act, id)
 			c10Disp(o, "random-id-frontend", "A", key, skew, t0+sec, ip, p, false)
+		}
+	}
+	// ---- C. sequences on ONE frontend (pooled generator state carried from one datagram to the next): IDs spliced
+	// from the timestamp half of one issued ID and the MAC half of another must never validate, and two live IDs
+	// of one address must both stay valid, whatever was generated or validated just before
+	for i := 0; i < n/8+6; i++ {
+		key, skew := keys[rng.Intn(2)], skews[rng.Intn(len(skews))]
+		if i%5 == 4 {
+			key = nil // udp.private_key unset: IDs are issued and checked under the generated key
+		}
+		ipA, ipB := dispIPs[rng.Intn(len(dispIPs))], dispIPs[rng.Intn(len(dispIPs))]
+		t0 := randT0()
+		t1 := t0 + int64(1+rng.Intn(100))*sec
+		act := acts[rng.Intn(3)]
+		idB0 := connect("A", key, skew, t0, ipB, "seq-connect")
+		idA1 := connect("A", key, skew, t1, ipA, "seq-connect")
+		idB1 := connect("A", key, skew, t1, ipB, "seq-connect")
+		splice := func(tsOf, macOf []byte) []byte { return cat(tsOf[:4], macOf[4:8]) }
+		type step struct {
+			ip []byte
+			id []byte
+		}
+		var seqs [][]step
+		switch i % 4 {
+		case 0: // connect(A,t1) ; B's genuine older ID ; B presents ts(t1)+mac(t0)
+			seqs = [][]step{{{ipA, nil}, {ipB, idB0}, {ipB, splice(idA1, idB0)}}}
+		case 1: // B's older then newer genuine ID, then the older again
+			seqs = [][]step{{{ipB, idB0}, {ipB, idB1}, {ipB, idB0}}}
+		case 2: // validate for A, then B replays A's ID, then A's timestamp with B's MAC
+			seqs = [][]step{{{ipA, idA1}, {ipB, idA1}, {ipB, splice(idA1, idB1)}, {ipA, splice(idB0, idA1)}}}
+		default: // a failed validation, then the genuine one, then the splice the other way round
+			seqs = [][]step{{{ipB, splice(idB1, idB0)}, {ipB, idB1}, {ipB, splice(idB0, idB1)}, {ipB, idB0}}}
+		}
+		if key == nil {
+			// an ID anybody can compute offline: the MAC under the EMPTY key
+			forged := cat(ts4(t1), c10Mac(nil, cat(ts4(t1), ipB))[:4])
+			seqs = append(seqs, []step{{ipB, forged}})
+		}
+		for _, sq := range seqs {
+			for _, st := range sq {
+				if st.id == nil {
+					connect("A", key, skew, t1, st.ip, "seq-connect")
+					continue
+				}
+				p, ok := body(act, st.id)
+				c10Disp(o, "seq-spliced-ids", "A", key, skew, t1+int64(rng.Intn(int(sec))), st.ip, p, ok)
+			}
 		}
 	}
 	o.notes["mac_oracle"] = "crypto/hmac + crypto/sha256 (standard library); the tracker itself uses minio/sha256-simd"
